@@ -289,13 +289,17 @@ def run_problems(probs, tier):
         for mode in (0, 1):
             its, x, alpha, nit = run_solver(p, mode, niter, 0.0)
             p["alpha_used"] = alpha
+            nfin = next((k for k, v in enumerate(its) if not np.all(np.isfinite(v))), len(its))
             for j in range(R):
                 recs.append({"kind": "run", "p": p, "mode": mode, "col": j, "x0": x0m[:, j], "alpha": alpha,
-                             "its": [col(v, j, R) for v in its], "nit": nit})
+                             "its": [col(v, j, R) for v in its[:nfin]], "nit": nit, "nonfinite": nfin < len(its)})
             # converged run (ISTA: default-like stopping rule tol=1e-10; FISTA: same cap, tol=0)
             _, xf, _, nf = run_solver(p, mode, cap, 1e-10 if mode == 0 else 0.0, want_its=False)
             fin[mode] = (xf, nf)
         conv = fin[0][1] < cap
+        if not (np.all(np.isfinite(fin[0][0])) and np.all(np.isfinite(fin[1][0]))):
+            recs.append({"kind": "diverged", "p": p, "col": 0, "which": 0 if not np.all(np.isfinite(fin[0][0])) else 1})
+            conv = False
         stats["conv" if conv else "notconv"] += 1
         if conv:
             for j in range(R):
@@ -415,6 +419,8 @@ def search_descent(p, j, x0, its):
 
 def search_kkt(p, j, x, eps):
     A = p["A"]
+    if not np.all(np.isfinite(x)):
+        return 0, "non-finite result %s" % x
     g = A.conj().T @ (p["y"][:, j] - A @ x)
     tk = 1e-6 * (1 + eps)
     for i in range(len(x)):
@@ -517,6 +523,8 @@ def search_step(p, j, mode, x0, its, alpha):
     seq = [x0] + list(its)
     b = betas(len(its))
     for k in range(len(its)):
+        if not np.all(np.isfinite(seq[k + 1])):
+            return k, [str(v) for v in seq[k + 1]], ["(finite value expected)"]
         z = seq[k] if (mode == 0 or k == 0) else seq[k] + b[k - 1] * (seq[k] - seq[k - 1])
         ref = step_ref(p, j, alpha, z)
         if np.abs(ref - seq[k + 1]).max(initial=0) > 1e-9 * (1 + np.abs(ref).max(initial=0)):
@@ -676,6 +684,18 @@ def main(tier):
         for cid, codes in sorted(fail[grp].items()):
             handle_run(cid, codes, idmap[cid])
 
+    for rc in recs:
+        if rc["kind"] == "diverged":
+            p = rc["p"]
+            R.violation("%s diverges (non-finite result) with alpha=%s <= 1/lambda_max=%.6g, eps=%g (%s, m=%d n=%d)"
+                        % ("ISTA" if rc["which"] == 0 else "FISTA", p.get("alpha_used"), 1 / p["lam"], p["eps"],
+                           "complex" if p["cplx"] else "real", p["m"], p["n"]),
+                        {"kind": "kkt", "problem": prob_dict(p, 0), "mode": rc["which"], "cap": 4000 if tier == "quick" else 6000})
+        elif rc["kind"] == "run" and rc.get("nonfinite"):
+            p = rc["p"]
+            R.violation("%s iterates become non-finite within %d iterations (alpha=%s <= 1/lambda_max=%.6g)"
+                        % ("ISTA" if rc["mode"] == 0 else "FISTA", rc["nit"], rc["alpha"], 1 / p["lam"]),
+                        {"kind": "step", "problem": prob_dict(p, rc["col"]), "mode": rc["mode"], "niter": 30})
     # default alpha = 1/lambda_max (oracle: numpy eigvalsh)
     ndef = 0
     for p in probs:
